@@ -88,7 +88,7 @@ def dict_file(entries):
 
 def make_case(rng, i, tier):
     entries = gen_dict(rng)
-    deadline = rng.choice([40, 200, 500])
+    deadline = rng.choice([40, 200, 500, 1500])
     wait = rng.choice([30, 150])
     ss = rng.choice(['none', 'none', 'add-space-only', 'full'])
     src = LETTERS + ['x', 'z', 'lsft', 'spc', '.', ',']
@@ -101,7 +101,7 @@ def make_case(rng, i, tier):
     rest = 't%d' % (max(wait, deadline) + 20)
     in_followup_context = False
     for s in range(rng.randint(1, 4)):
-        kind = rng.choice(['chord', 'chord', 'chord', 'passthrough', 'chord-then-type'])
+        kind = rng.choice(['chord', 'chord', 'chord', 'passthrough', 'chord-then-type', 'slow-chord', 'late-chord', 'extend-late'])
         # a completed chord that has followups keeps its followup dictionary prioritized until other input or
         # 10000 quiet ticks clear it: start the next scenario from a state where that context is gone
         h.append('t10100' if in_followup_context else rest)
@@ -114,6 +114,37 @@ def make_case(rng, i, tier):
             h.append('M')
             continue
         path, w = rng.choice(entries)
+        if kind == 'late-chord':
+            # the keys of an entry held together, but the first one alone for longer than the deadline: not a chord, plain typing
+            # (entries of which no part is a chord by itself, so that nothing activates before the deadline runs out)
+            cands = [(p2, w2) for p2, w2 in entries if len(p2) == 1 and len(p2[0]) >= 2
+                     and not any(q[0] <= p2[0] and q[0] != p2[0] for q, _ in entries)]
+            if not cands:
+                kind = 'chord'
+            else:
+                path, w = rng.choice(cands)
+                order = sorted(path[0])
+                rng.shuffle(order)
+                h += ['d%d' % CODE[order[0]], 't%d' % (deadline + rng.choice([10, 30]))]
+                for k in order[1:]:
+                    h += ['d%d' % CODE[k], 't%d' % rng.randint(1, 5)]
+                for k in order:
+                    h += ['u%d' % CODE[k], 't%d' % rng.randint(1, 3)]
+                scen.append(('pass', ''.join(order)))
+                h.append('M')
+                continue
+        sub = None
+        if kind == 'extend-late':
+            # a chord that extends another chord, the shorter one completed first (it activates: a chord did activate within the
+            # deadline), the remaining keys added later than one deadline after the very first press but sooner than one deadline
+            # after that activation
+            cands = [(p2, w2, q[0]) for p2, w2 in entries if len(p2) == 1 for q, _ in entries
+                     if len(q) == 1 and q[0] < p2[0] and len(q[0]) >= 2]
+            if not cands or deadline < 200:
+                kind = 'chord'
+            else:
+                p2, w, sub = rng.choice(cands)
+                path = p2
         shift = rng.random() < 0.2
         if shift:
             h += ['d42', 't2']
@@ -121,8 +152,22 @@ def make_case(rng, i, tier):
         for si, ks in enumerate(path):
             order = sorted(ks)
             rng.shuffle(order)
+            if kind == 'slow-chord':
+                # slowly, but every key of the chord goes down within the deadline counted from its first key
+                gap_max = max(1, (deadline - 10) // max(1, len(order)))
+            if sub is not None and si == 0:
+                first = sorted(sub)
+                rng.shuffle(first)
+                later = sorted(ks - sub)
+                rng.shuffle(later)
+                for k in first[:-1]:
+                    h += ['d%d' % CODE[k], 't20']
+                h += ['d%d' % CODE[first[-1]], 't%d' % (deadline - 12)]
+                for k in later:
+                    h += ['d%d' % CODE[k], 't1']
+                order = []
             for k in order:
-                h += ['d%d' % CODE[k], 't%d' % rng.randint(1, gap_max)]
+                h += ['d%d' % CODE[k], 't%d' % (rng.randint(max(1, gap_max // 2), gap_max) if kind == 'slow-chord' else rng.randint(1, gap_max))]
             rel = sorted(ks)
             rng.shuffle(rel)
             for k in rel:
